@@ -21,12 +21,24 @@ def _assert_subject():
 def run_one(mod, case):
     """Run one case; harness exceptions become verdict=error (inconclusive), never a violation."""
     t = time.time()
+    import logging
+    dbg = isinstance(case, dict) and case.get('_debug_logging')
+    root = logging.getLogger()
+    old_level = root.level
+    if dbg:
+        # a configuration that must never change a result: every logger of the subject reports isEnabledFor(DEBUG), so its
+        # debug-only code paths run (records still end at the last-resort handler, which only prints warnings)
+        root.setLevel(logging.DEBUG)
     try:
         from aegmon import common
         common.reset_scratch()
         res = mod.run(case)
+        if dbg and isinstance(res.get('counters'), dict):
+            res['counters']['cases_run_with_debug_logging'] = res['counters'].get('cases_run_with_debug_logging', 0) + 1
     except Exception:
         res = {'verdict': 'error', 'error': traceback.format_exc()[-4000:]}
+    finally:
+        root.setLevel(old_level)
     res.setdefault('verdict', 'violated' if res.get('violations') else 'held')
     res['t'] = round(time.time() - t, 4)
     return res
